@@ -416,6 +416,19 @@ func (tg *textGen) hostile(idx int64, r *Rng, d asm.Dialect, cfg asm.Config) (st
 				text = mutateTokens(r, text)
 				class = "repo-warrior-token-mutated"
 			}
+		case x < 16 && r.Bool():
+			// lines whose operands sit at the ends of the assembler's number range (the cost of a call follows the
+			// size of the input, not the magnitude of its numbers - whatever the core size)
+			lits := []string{"2147483647", "-2147483647", "2147483646", "-2147483646", "-2147483648", "2147483648", "1073741824", "-1073741823", "4294967295", "-0", "0"}
+			var b strings.Builder
+			for k, n := 0, 1+r.Intn(60); k < n; k++ {
+				op := []string{"dat", "mov", "add", "jmp", "djn", "spl"}[r.Intn(6)]
+				fmt.Fprintf(&b, "%s %s%s, %s%s\n", op, []string{"", "#", "@", "<"}[r.Intn(4)], lits[r.Intn(len(lits))], []string{"", "#", "@", "<"}[r.Intn(4)], lits[r.Intn(len(lits))])
+			}
+			if r.Chance(1, 3) {
+				fmt.Fprintf(&b, "org %s\n", lits[r.Intn(len(lits))])
+			}
+			text, class = b.String(), "extreme-literals"
 		case x < 16:
 			text = hostileFixed[r.Intn(len(hostileFixed))]
 			if len(text) >= 2000 {
